@@ -1928,6 +1928,27 @@ func (in *Interp) callBuiltin(fr *frame, b *ssa.Builtin, args []value, pos token
 			}
 		}
 		return nil
+	case "SliceData":
+		sl := args[0].(Slice)
+		if sl.isNil || cap(sl.a) == 0 {
+			return Ptr{}
+		}
+		return Ptr{arr: sl.a[:cap(sl.a)], idx: ts.Const(64, 0)}
+	case "String":
+		p := args[0].(Ptr)
+		n := int(in.concretize(in.toInt64(args[1].(*Term), types.Typ[types.Int]), 0, int64(in.ex.cfg.MaxAlloc), "unsafe.String length"))
+		if n == 0 {
+			return Str{}
+		}
+		if p.arr == nil || !p.idx.IsConst() {
+			in.unsupported("unsafe.String on a pointer without array context")
+		}
+		o := int(p.idx.val)
+		bs := make([]*Term, n)
+		for i := 0; i < n; i++ {
+			bs[i] = p.arr[o+i].(*Term)
+		}
+		return Str{bs}
 	case "ssa:wrapnilchk":
 		p := args[0].(Ptr)
 		if p.IsNil() {
